@@ -14,6 +14,8 @@ RULE = (
     "sink.serialize) x preset on the boundaries (names max(8,k), +1; prefixes 0, k, k+1; datatypes likewise; k = IRI / "
     "datatype occurrences of the largest statement) x frame sizes 1..250 x delimited / non-delimited flat x reader "
     "(parse_jelly_flat, parse_jelly_to_graph, sink.parse). Oracle: parsed sequence == input sequence term by term. "
+    "Plus a bounded-exhaustive sweep: all sequences of <= 2 (quick) / <= 3 (thorough) statements over a 3-IRI / 2-literal "
+    "alphabet x presets {8/0/1, 8/3/1, 8/4/2} x frame sizes {1, 250}. "
     "non-trivial = >=2 statements and (eviction seen by the reference decoder's audit, or an elided term, or >=2 "
     "frames, or a quoted triple, or a generalized position); distinct by case hash."
 )
@@ -51,7 +53,50 @@ def check_case(case):
     return body(case, None)
 
 
+SWEEP_S = [["iri", "http://ex.org/a"], ["iri", "http://ex.org/b#c"], ["iri", "x"]]
+SWEEP_P = [["iri", "http://ex.org/a"], ["iri", "http://ex.org/b#c"]]
+SWEEP_O = [["iri", "http://ex.org/a"], ["iri", "x"], ["lit", "v", None, None],
+           ["lit", "1", None, "http://www.w3.org/2001/XMLSchema#integer"]]
+SWEEP_PRESETS = [[8, 0, 1], [8, 3, 1], [8, 4, 2]]
+
+
+def sweep_cases(max_len):
+    """Bounded-exhaustive: all sequences of <= max_len statements over a 3-IRI / 2-literal alphabet x presets x frame sizes."""
+    import itertools
+
+    stmts = [[s, p, o] for s in SWEEP_S for p in SWEEP_P for o in SWEEP_O]
+    for n in range(1, max_len + 1):
+        for seq in itertools.product(stmts, repeat=n):
+            for preset in SWEEP_PRESETS:
+                for fs in (1, 250):
+                    yield {"integration": "generic", "entry": "stream_frames_gen", "phys": "TRIPLES", "logical": 1,
+                           "delimited": True, "frame_size": fs, "preset": preset,
+                           "params": {"generalized": True, "rdf_star": True, "stream_name": ""},
+                           "statements": [list(x) for x in seq], "reader": "flat"}
+
+
+def run_sweep(spec) -> Acc:
+    acc = Acc()
+    known = set(spec["known"])
+    seen = set()
+    for i, case in enumerate(sweep_cases(spec["max_len"])):
+        if i % spec["of"] != spec["idx"]:
+            continue
+        v = body(case, acc)
+        if v is not None:
+            if v.signature in known:
+                acc.known_hits[v.signature] += 1
+            elif v.signature not in seen:
+                seen.add(v.signature)
+                acc.violations.append(v.to_json())
+    acc.extra["sweep_cases"] = acc.evaluations
+    acc.extra["sweep_max_len"] = spec["max_len"]
+    return acc
+
+
 def run_shard(spec) -> Acc:
+    if spec.get("part") == "sweep":
+        return run_sweep(spec)
     acc = Acc()
     hyp_search(scen.generic_write_case(max_len=spec.get("max_len", 14)), body, acc,
                seed=spec["seed"] * 1000 + spec["shard"], max_examples=spec["n"], known=set(spec["known"]))
@@ -60,4 +105,7 @@ def run_shard(spec) -> Acc:
 
 def plan(tier, seed):
     n = 250 if tier == "quick" else 6000
-    return [{"shard": i, "n": n, "max_len": 14 if tier == "quick" else 40} for i in range(16)]
+    specs = [{"shard": i, "n": n, "max_len": 14 if tier == "quick" else 40} for i in range(16)]
+    k = 4 if tier == "quick" else 16
+    specs += [{"part": "sweep", "idx": i, "of": k, "max_len": 2 if tier == "quick" else 3} for i in range(k)]
+    return specs
